@@ -1517,6 +1517,27 @@ func run(in Sx) Sx {
 // ---------------------------------------------------------------- generators
 
 func genScript(rng *Rng, directed int) Sx {
+	in := genScript0(rng, directed)
+	// one concrete error type per executor in the in-process classes: if the script uses one of the
+	// types 6..9, its plain failing tasks (1) use that type too
+	ks := in.At(3)
+	use := int64(0)
+	for i := 0; i < ks.Len(); i++ {
+		if o := ks.At(i).At(0).Int64(); o >= 6 && o <= 9 {
+			use = o
+		}
+	}
+	if use != 0 {
+		for i := 0; i < ks.Len(); i++ {
+			if ks.At(i).At(0).Int64() == 1 {
+				ks.L[i] = List(Int(use), ks.At(i).At(1))
+			}
+		}
+	}
+	return in
+}
+
+func genScript0(rng *Rng, directed int) Sx {
 	nw := rng.PickInt(0, 1, 1, 1, 2, 2, 3, 4)
 	capacity := rng.PickInt(0, 1, 1, 2, 3, 4, 6)
 	var kinds, ops []Sx
@@ -1594,6 +1615,8 @@ func genScript(rng *Rng, directed int) Sx {
 	shutAt := rng.Range(0, n+2)
 	shut := 0
 	var heldExec []int
+	lastHeld := -1
+	errKind := rng.PickInt(6, 7, 8, 9)
 	for i := 0; i < n; i++ {
 		if i == shutAt {
 			ops = append(ops, Ints(2))
@@ -1605,6 +1628,7 @@ func genScript(rng *Rng, directed int) Sx {
 				ops = append(ops, Ints(4))
 				kinds = append(kinds, List(Int(int64(rng.PickInt(0, 1, 2))), Bool(false)))
 				heldExec = append(heldExec, nexec)
+				lastHeld = nexec
 				nexec++
 			case j == 1 && len(heldExec) > 0:
 				x := rng.Intn(len(heldExec))
@@ -1622,10 +1646,16 @@ func genScript(rng *Rng, directed int) Sx {
 		case k < 6 || len(gatedOpen) == 0:
 			if rng.Chance(1, 8) {
 				addExec(rng.PickInt(3, 4, 5), false) // a nil / typed-nil Runnable, a Task without an action
-			} else if rng.Chance(1, 6) && nexec > 0 {
-				addExec(11, false) // the same Task object as the previous submission, submitted again
+			} else if rng.Chance(1, 6) && nexec > 0 && lastHeld != nexec-1 {
+				// the same Task object as the previous submission, submitted again (not after a held
+				// Execute: its object is queued later than this one, and which run serves which
+				// submission would be a matter of labels)
+				addExec(11, false)
 			} else if rng.Chance(1, 5) {
-				addExec(rng.PickInt(6, 7, 8, 9), rng.Chance(1, 4)) // error values of other concrete types
+				// an error value of another concrete type (one type per script: histories that mix the
+				// types on one executor run in the child-process class, where a death of the process is
+				// an observation and not the end of the harness)
+				addExec(errKind, rng.Chance(1, 4))
 			} else {
 				addExec(rng.PickInt(0, 0, 0, 1, 2), rng.Chance(2, 5))
 			}
